@@ -1,6 +1,6 @@
 (* C02 — proofs that the operand map is inverted by the decoder side (unbind1 / decode_row) for the invertible syntaxes. *)
 From Coq Require Import ZArith List Bool Lia.
-From Verif Require Import A64.A64Tmpl A64.A64TmplProofs A64.A64Sem A64.A64SemProofs Codec.ImmModel Codec.LogImmSound.
+From Verif Require Import A64.A64Tmpl A64.A64TmplProofs A64.A64Sem A64.A64SemProofs Codec.ImmModel Codec.ImmProofs Codec.LogImmSound.
 Import ListNotations.
 Local Open Scope Z_scope.
 
@@ -267,6 +267,20 @@ Proof.
     repeat (apply andb_prop in E; destruct E as [E ?]).
     repeat match goal with Y : Bool.eqb _ _ = true |- _ => apply Bool.eqb_prop in Y end. b2p. subst.
     cbn [lookup]. rewrite Z.eqb_refl. reflexivity.
+  - (* SImmRsub *) destruct ops as [|[] r]; try discriminate.
+    destruct ((lo <=? v) && (v <=? hi)) eqn:E; inversion H; subst. cbn [lookup]. rewrite Z.eqb_refl.
+    replace (c - (c - v)) with v by lia. reflexivity.
+  - (* SFpImm *) pose proof (nodup2 _ _ Hnd) as N1.
+    destruct ops as [|[] r]; try discriminate. cbv zeta in H.
+    match type of H with (if ?c then _ else _) = _ => destruct c eqn:E; inversion H; subst end.
+    repeat (apply andb_prop in E; destruct E as [E ?]).
+    repeat match goal with X : (_ <=? _) = true |- _ => apply Z.leb_le in X | X : (_ <? _) = true |- _ => apply Z.ltb_lt in X end.
+    cbn [lookup]. rewrite !Z.eqb_refl, N1.
+    set (b := fimm_bits pred v) in *. set (i := encode_fp_imm8 9 6 48 b) in *.
+    replace (i / 32 * 32 + i mod 32) with i by (Z.div_mod_to_equations; lia).
+    assert (X : vfp_expand_imm 64 i = b).
+    { apply (fp_imm8_sound 64 b); [right; right; reflexivity | change (2 ^ 64) with 18446744073709551616; lia | assumption]. }
+    rewrite X. reflexivity.
 Qed.
 
 Lemma nodupb_app : forall l1 l2, nodupb (l1 ++ l2) = true -> nodupb l1 = true /\ nodupb l2 = true.
